@@ -226,8 +226,9 @@ mod ev {
             Payload::None => {
                 m.insert("pk".into(), json!("n"));
             }
-            Payload::Integer(_) => {
+            Payload::Integer(i) => {
                 m.insert("pk".into(), json!("i"));
+                m.insert("pi".into(), digits_of(&i.to_string()));
             }
             Payload::Float(_) => {
                 m.insert("pk".into(), json!("f"));
@@ -237,6 +238,9 @@ mod ev {
                 m.insert("ps".into(), json!(s));
                 m.insert("pe".into(), json!(e));
             }
+        }
+        if !matches!(t.payload, Payload::Integer(_)) {
+            m.insert("pi".into(), json!([]));
         }
         if !matches!(t.payload, Payload::StringLiteral(..)) {
             m.insert("ps".into(), json!(0));
